@@ -716,3 +716,263 @@ Proof.
   split; [unfold sx_C2; apply S_then; [reflexivity|apply S_hole]|].
   vm_compute. repeat split.
 Qed.
+
+(* ================================================================================================
+   LET2 round (proofs/C02Weak.v, proofs/C02LetProg.v): WEAKENING and the TWO-STATEMENT LET LAW.
+   [nocc x e]: x occurs nowhere in e — not as an identifier, `{x}` key, assignment target or parameter;
+   [vnm x v] / [frames_nm x fr]: no function value inside v / reachable from fr has x as a parameter or
+   occurring in its body (hereditarily through lists, records, captured scopes).
+   ================================================================================================ *)
+Require Import Blots.proofs.C02Weak Blots.proofs.C02LetProg.
+
+(* operators / built-ins create no mention of a name and use their callback parametrically on values that do
+   not mention it: GenOps.v / AllGenClosed.v instantiated with the store-independent predicate [vok x] *)
+Theorem C02_ops_create_no_mention : ops_nm binop_impl builtin_impl /\ ops_nm binop_impl builtin_full.
+Proof. exact (conj ops_nm_inst ops_nm_full). Qed.
+Check C02_ops_create_no_mention : ops_nm binop_impl builtin_impl /\ ops_nm binop_impl builtin_full.
+Print Assumptions C02_ops_create_no_mention.
+
+(* WEAKENING, general form: ANY expression that does not mention x (assignments, do-blocks, calls), any
+   operators / built-ins with ops_nm: the binding (x, w) added to the head frame changes neither the outcome
+   nor the store; the final scope chains agree on every name other than x; no value mentioning x is created *)
+Theorem C02_weakening_generic : forall release bi bu, ops_nm bi bu ->
+  forall d x w e st k f fr r st' fr',
+    String.eqb "inputs" x = false ->
+    nocc x e = true -> frames_nm x ((k, f) :: fr) = true -> vnm x w = true ->
+    evalD release bi bu d (st, (k, f) :: fr) e = (r, (st', fr')) ->
+    exists frB', evalD release bi bu d (st, (k, (x, w) :: f) :: fr) e = (r, (st', frB')) /\
+                 (forall y, String.eqb y x = false -> lookup fr' y = lookup frB' y) /\
+                 frames_nm x fr' = true /\ (forall v, r = Ok v -> vnm x v = true).
+Proof. exact weakening_generic. Qed.
+Check C02_weakening_generic : forall release bi bu, ops_nm bi bu ->
+  forall d x w e st k f fr r st' fr',
+    String.eqb "inputs" x = false ->
+    nocc x e = true -> frames_nm x ((k, f) :: fr) = true -> vnm x w = true ->
+    evalD release bi bu d (st, (k, f) :: fr) e = (r, (st', fr')) ->
+    exists frB', evalD release bi bu d (st, (k, (x, w) :: f) :: fr) e = (r, (st', frB')) /\
+                 (forall y, String.eqb y x = false -> lookup fr' y = lookup frB' y) /\
+                 frames_nm x fr' = true /\ (forall v, r = Ok v -> vnm x v = true).
+Print Assumptions C02_weakening_generic.
+
+(* WEAKENING for assignment-free expressions, the evaluator with every built-in: same outcome, same store,
+   the same scope chain up to the binding (this is [C02_weakening_full] with the corrected notion of
+   "mentions": the Prop as stated by the LET round is refuted below) *)
+Theorem C02_weakening : forall release d x w e st k f fr r st' fr',
+  String.eqb "inputs" x = false ->
+  nocc x e = true -> no_assign e = true -> frames_nm x ((k, f) :: fr) = true -> vnm x w = true ->
+  evalD release binop_impl builtin_full d (st, (k, f) :: fr) e = (r, (st', fr')) ->
+  fr' = (k, f) :: fr /\
+  evalD release binop_impl builtin_full d (st, (k, (x, w) :: f) :: fr) e = (r, (st', (k, (x, w) :: f) :: fr)).
+Proof. exact weakening_full. Qed.
+Check C02_weakening : forall release d x w e st k f fr r st' fr',
+  String.eqb "inputs" x = false ->
+  nocc x e = true -> no_assign e = true -> frames_nm x ((k, f) :: fr) = true -> vnm x w = true ->
+  evalD release binop_impl builtin_full d (st, (k, f) :: fr) e = (r, (st', fr')) ->
+  fr' = (k, f) :: fr /\
+  evalD release binop_impl builtin_full d (st, (k, (x, w) :: f) :: fr) e = (r, (st', (k, (x, w) :: f) :: fr)).
+Print Assumptions C02_weakening.
+
+Theorem C02_weakening_impl : forall release d x w e st k f fr r st' fr',
+  String.eqb "inputs" x = false ->
+  nocc x e = true -> no_assign e = true -> frames_nm x ((k, f) :: fr) = true -> vnm x w = true ->
+  evalD release binop_impl builtin_impl d (st, (k, f) :: fr) e = (r, (st', fr')) ->
+  fr' = (k, f) :: fr /\
+  evalD release binop_impl builtin_impl d (st, (k, (x, w) :: f) :: fr) e = (r, (st', (k, (x, w) :: f) :: fr)).
+Proof. exact weakening_inst. Qed.
+Check C02_weakening_impl : forall release d x w e st k f fr r st' fr',
+  String.eqb "inputs" x = false ->
+  nocc x e = true -> no_assign e = true -> frames_nm x ((k, f) :: fr) = true -> vnm x w = true ->
+  evalD release binop_impl builtin_impl d (st, (k, f) :: fr) e = (r, (st', fr')) ->
+  fr' = (k, f) :: fr /\
+  evalD release binop_impl builtin_impl d (st, (k, (x, w) :: f) :: fr) e = (r, (st', (k, (x, w) :: f) :: fr)).
+Print Assumptions C02_weakening_impl.
+
+(* the Prop kept by the LET round asked only that x be not FREE in the function bodies of the scope: false.
+   g = () => (x = 5); g() is 5 when x is unbound and "x is already defined" when x is bound (the body assigns
+   x without reading it; reproduced on the CLI built from /repo) *)
+Theorem C02_weakening_full_refuted : ~ C02_weakening_full.
+Proof. exact weakening_stmt_refuted. Qed.
+Check C02_weakening_full_refuted : ~ C02_weakening_full.
+Print Assumptions C02_weakening_full_refuted.
+
+(* THE TWO-STATEMENT LET LAW.  Program A: `x = s` then C[x]; program B: C[s]; same starting configuration;
+   C a sequential context; x fresh (occurs nowhere in C[s], in no function of the scope); the value of s
+   cell-free.  Whenever `x = s` succeeds the two outcomes are the same up to cell renaming (errors included).
+   Both build profiles (release is quantified); evaluator with every built-in. *)
+Theorem C02_let_program : forall release d x s C_x C_s st fr v c1 rA cA rB cB,
+  frames_lt (length st) fr = true -> no_assign s = true -> no_assign C_s = true ->
+  sctx x s C_x C_s ->
+  nocc x s = true -> nocc x C_s = true -> frames_nm x fr = true ->
+  evalD release binop_impl builtin_full d (st, fr) (EAssign x s) = (Ok v, c1) ->
+  cell_free v = true ->
+  evalD release binop_impl builtin_full d c1 C_x = (rA, cA) ->
+  evalD release binop_impl builtin_full d (st, fr) C_s = (rB, cB) ->
+  osame rA rB.
+Proof. exact let_program_full. Qed.
+Check C02_let_program : forall release d x s C_x C_s st fr v c1 rA cA rB cB,
+  frames_lt (length st) fr = true -> no_assign s = true -> no_assign C_s = true ->
+  sctx x s C_x C_s ->
+  nocc x s = true -> nocc x C_s = true -> frames_nm x fr = true ->
+  evalD release binop_impl builtin_full d (st, fr) (EAssign x s) = (Ok v, c1) ->
+  cell_free v = true ->
+  evalD release binop_impl builtin_full d c1 C_x = (rA, cA) ->
+  evalD release binop_impl builtin_full d (st, fr) C_s = (rB, cB) ->
+  osame rA rB.
+Print Assumptions C02_let_program.
+
+Theorem C02_let_program_impl : forall release d x s C_x C_s st fr v c1 rA cA rB cB,
+  frames_lt (length st) fr = true -> no_assign s = true -> no_assign C_s = true ->
+  sctx x s C_x C_s ->
+  nocc x s = true -> nocc x C_s = true -> frames_nm x fr = true ->
+  evalD release binop_impl builtin_impl d (st, fr) (EAssign x s) = (Ok v, c1) ->
+  cell_free v = true ->
+  evalD release binop_impl builtin_impl d c1 C_x = (rA, cA) ->
+  evalD release binop_impl builtin_impl d (st, fr) C_s = (rB, cB) ->
+  osame rA rB.
+Proof. exact let_program_inst. Qed.
+Check C02_let_program_impl : forall release d x s C_x C_s st fr v c1 rA cA rB cB,
+  frames_lt (length st) fr = true -> no_assign s = true -> no_assign C_s = true ->
+  sctx x s C_x C_s ->
+  nocc x s = true -> nocc x C_s = true -> frames_nm x fr = true ->
+  evalD release binop_impl builtin_impl d (st, fr) (EAssign x s) = (Ok v, c1) ->
+  cell_free v = true ->
+  evalD release binop_impl builtin_impl d c1 C_x = (rA, cA) ->
+  evalD release binop_impl builtin_impl d (st, fr) C_s = (rB, cB) ->
+  osame rA rB.
+Print Assumptions C02_let_program_impl.
+
+(* ... after ANY top-level program prefix run from the initial configuration (function-free inputs): no
+   hypothesis on the configuration is left except the freshness of x in its functions *)
+Theorem C02_let_program_after_any_prefix : forall release d0 d inputs prog x s C_x C_s v c1 rA cA rB cB,
+  frame_lt 0 inputs = true ->
+  let c := s_cfg (fst (run (evalD release binop_impl builtin_full d0) (init_session inputs) prog)) in
+  no_assign s = true -> no_assign C_s = true -> sctx x s C_x C_s ->
+  nocc x s = true -> nocc x C_s = true -> frames_nm x (snd c) = true ->
+  evalD release binop_impl builtin_full d c (EAssign x s) = (Ok v, c1) ->
+  cell_free v = true ->
+  evalD release binop_impl builtin_full d c1 C_x = (rA, cA) ->
+  evalD release binop_impl builtin_full d c C_s = (rB, cB) ->
+  osame rA rB.
+Proof. exact let_program_after_prefix. Qed.
+Check C02_let_program_after_any_prefix : forall release d0 d inputs prog x s C_x C_s v c1 rA cA rB cB,
+  frame_lt 0 inputs = true ->
+  let c := s_cfg (fst (run (evalD release binop_impl builtin_full d0) (init_session inputs) prog)) in
+  no_assign s = true -> no_assign C_s = true -> sctx x s C_x C_s ->
+  nocc x s = true -> nocc x C_s = true -> frames_nm x (snd c) = true ->
+  evalD release binop_impl builtin_full d c (EAssign x s) = (Ok v, c1) ->
+  cell_free v = true ->
+  evalD release binop_impl builtin_full d c1 C_x = (rA, cA) ->
+  evalD release binop_impl builtin_full d c C_s = (rB, cB) ->
+  osame rA rB.
+Print Assumptions C02_let_program_after_any_prefix.
+
+(* freshness with respect to the FUNCTIONS of the scope is necessary (names in a body are resolved in the
+   caller's chain at call time): after f = y => x + y,  x = 1; f(1) + x  is 3,  f(1) + 1  fails *)
+Theorem C02_let_program_nofresh_refuted : ~ let_program_nofresh_stmt.
+Proof. exact let_program_nofresh_refuted. Qed.
+Check C02_let_program_nofresh_refuted : ~ let_program_nofresh_stmt.
+Print Assumptions C02_let_program_nofresh_refuted.
+
+(* the hypotheses are satisfiable: prefix  t = [3, 4]; f = (a, b) => a * b; g = z => z + 1  (two functions in
+   scope, none mentions x9), then  x9 = t + 1  followed by  map([1], z => z)[0] + f((q => q)(2), x9)[0]
+   versus the same with t + 1 in place of x9: 9 on both sides, with different stores *)
+Definition lp_prog : list stmt :=
+  [SExpr (EAssign "t" (EList [Cm [] (ENum (num_of_Z 3)) None; Cm [] (ENum (num_of_Z 4)) None]));
+   SExpr (EAssign "f" (ELam [AReq "a"; AReq "b"] (EBin Multiply (EId "a") (EId "b"))));
+   SExpr (EAssign "g" (ELam [AReq "z"] (EBin Add (EId "z") (ENum (num_of_Z 1)))))].
+Definition lp_s : expr := EBin Add (EId "t") (ENum (num_of_Z 1)).
+Example C02_let_program_example :
+  let c := s_cfg (fst (run (evalD true binop_impl builtin_full 8) (init_session []) lp_prog)) in
+  let a1 := evalD true binop_impl builtin_full 8 c (EAssign "x9" lp_s) in
+  let rA := evalD true binop_impl builtin_full 8 (snd a1) (sx_C (EId "x9")) in
+  let rB := evalD true binop_impl builtin_full 8 c (sx_C lp_s) in
+  sctx "x9" lp_s (sx_C (EId "x9")) (sx_C lp_s) /\
+  no_assign lp_s = true /\ no_assign (sx_C lp_s) = true /\ nocc "x9" lp_s = true /\ nocc "x9" (sx_C lp_s) = true /\
+  frames_nm "x9" (snd c) = true /\ length (fst c) = 2 /\
+  fst a1 = Ok (VList [VNum (num_of_Z 4); VNum (num_of_Z 5)]) /\
+  fst rA = Ok (VNum (num_of_Z 9)) /\ fst rB = Ok (VNum (num_of_Z 9)) /\ osame (fst rA) (fst rB).
+Proof.
+  split; [unfold sx_C; apply S_binr; [reflexivity|]; apply S_accl;
+          apply (S_calla "x9" lp_s (EId "f") [sx_arg0]); [reflexivity|repeat constructor|apply S_hole]|].
+  vm_compute. repeat split.
+Qed.
+
+(* ---- SEVERAL occurrences in sequential position ([sctxs]: the reflexive-transitive closure of [sctx];
+   C[x, x] -> C[s, x] -> C[s, s], one occurrence per step, the renamings growing along the chain) ---- *)
+Theorem C02_sctx_is_sctxs : forall x s a b, sctx x s a b -> sctxs x s a b.
+Proof. exact sctx_sctxs. Qed.
+Check C02_sctx_is_sctxs : forall x s a b, sctx x s a b -> sctxs x s a b.
+Print Assumptions C02_sctx_is_sctxs.
+
+Theorem C02_let_abstraction_seq_multi_partial : forall release d x s st st1 fr v eA eB,
+  frames_lt (length st) fr = true ->
+  evalD release binop_impl builtin_full d (st, fr) (EId x) = (Ok v, (st, fr)) ->
+  evalD release binop_impl builtin_full d (st, fr) s = (Ok v, (st1, fr)) ->
+  cell_free v = true ->
+  sctxs x s eA eB ->
+  osame (fst (evalD release binop_impl builtin_full d (st, fr) eA)) (fst (evalD release binop_impl builtin_full d (st, fr) eB)).
+Proof. exact let_abstraction_seq_multi_full. Qed.
+Check C02_let_abstraction_seq_multi_partial : forall release d x s st st1 fr v eA eB,
+  frames_lt (length st) fr = true ->
+  evalD release binop_impl builtin_full d (st, fr) (EId x) = (Ok v, (st, fr)) ->
+  evalD release binop_impl builtin_full d (st, fr) s = (Ok v, (st1, fr)) ->
+  cell_free v = true ->
+  sctxs x s eA eB ->
+  osame (fst (evalD release binop_impl builtin_full d (st, fr) eA)) (fst (evalD release binop_impl builtin_full d (st, fr) eB)).
+Print Assumptions C02_let_abstraction_seq_multi_partial.
+
+Theorem C02_let_program_multi : forall release d x s C_x C_s st fr v c1 rA cA rB cB,
+  frames_lt (length st) fr = true -> no_assign s = true -> no_assign C_s = true ->
+  sctxs x s C_x C_s ->
+  nocc x s = true -> nocc x C_s = true -> frames_nm x fr = true ->
+  evalD release binop_impl builtin_full d (st, fr) (EAssign x s) = (Ok v, c1) ->
+  cell_free v = true ->
+  evalD release binop_impl builtin_full d c1 C_x = (rA, cA) ->
+  evalD release binop_impl builtin_full d (st, fr) C_s = (rB, cB) ->
+  osame rA rB.
+Proof. exact let_program_multi_full. Qed.
+Check C02_let_program_multi : forall release d x s C_x C_s st fr v c1 rA cA rB cB,
+  frames_lt (length st) fr = true -> no_assign s = true -> no_assign C_s = true ->
+  sctxs x s C_x C_s ->
+  nocc x s = true -> nocc x C_s = true -> frames_nm x fr = true ->
+  evalD release binop_impl builtin_full d (st, fr) (EAssign x s) = (Ok v, c1) ->
+  cell_free v = true ->
+  evalD release binop_impl builtin_full d c1 C_x = (rA, cA) ->
+  evalD release binop_impl builtin_full d (st, fr) C_s = (rB, cB) ->
+  osame rA rB.
+Print Assumptions C02_let_program_multi.
+
+(* two occurrences, and an s that ALLOCATES on every evaluation: s = map(t, z => z + 1) (value [4, 5], cell-free;
+   one cell per evaluation);  C = [□, □, (q => q)].  After the prefix (2 cells) program A `x9 = s; [x9, x9, q => q]`
+   allocates cell 2 in the assignment and the closure is cell 3; program B `[s, s, q => q]` allocates cells 2 and 3
+   for the two evaluations of s and the closure is cell 4: the results differ as terms and are osame *)
+Definition mp_s : expr :=
+  ECall (EBuiltin B_map) [EId "t"; ELam [AReq "z"] (EBin Add (EId "z") (ENum (num_of_Z 1)))].
+Definition mp_C (h1 h2 : expr) : expr :=
+  EList [Cm [] h1 None; Cm [] h2 None; Cm [] (ELam [AReq "q"] (EId "q")) None].
+Example C02_let_program_multi_example :
+  let c := s_cfg (fst (run (evalD true binop_impl builtin_full 8) (init_session []) lp_prog)) in
+  let a1 := evalD true binop_impl builtin_full 8 c (EAssign "x9" mp_s) in
+  let rA := evalD true binop_impl builtin_full 8 (snd a1) (mp_C (EId "x9") (EId "x9")) in
+  let rB := evalD true binop_impl builtin_full 8 c (mp_C mp_s mp_s) in
+  sctxs "x9" mp_s (mp_C (EId "x9") (EId "x9")) (mp_C mp_s mp_s) /\
+  no_assign mp_s = true /\ no_assign (mp_C mp_s mp_s) = true /\ nocc "x9" mp_s = true /\ nocc "x9" (mp_C mp_s mp_s) = true /\
+  frames_nm "x9" (snd c) = true /\ length (fst c) = 2 /\
+  fst a1 = Ok (VList [VNum (num_of_Z 4); VNum (num_of_Z 5)]) /\
+  length (fst (snd rA)) = 4 /\ length (fst (snd rB)) = 5 /\
+  is_ok (fst rA) = true /\ fst rA <> fst rB /\ osame (fst rA) (fst rB).
+Proof.
+  split.
+  { unfold mp_C. eapply SS_step.
+    - apply (S_list "x9" mp_s [] [] None (EId "x9") mp_s); [constructor|apply S_hole].
+    - eapply SS_step; [|apply SS_refl].
+      apply (S_list "x9" mp_s [Cm [] mp_s None] [] None (EId "x9") mp_s); [repeat constructor|apply S_hole]. }
+  vm_compute. repeat split. intros H; discriminate H.
+Qed.
+
+(* the hypothesis [nocc x s] of C02_let_program is implied by [nocc x C_s] (s is a subterm of C[s]); it is kept in
+   the statements above only because the several-occurrences form (sctxs, possibly zero steps) needs it *)
+Theorem C02_sctx_nocc : forall x s a b, sctx x s a b -> nocc x b = true -> nocc x s = true.
+Proof. exact sctx_nocc. Qed.
+Check C02_sctx_nocc : forall x s a b, sctx x s a b -> nocc x b = true -> nocc x s = true.
+Print Assumptions C02_sctx_nocc.
